@@ -437,9 +437,11 @@ PROPS["C05"] = dict(
 C15_LABELS = {"training_rows_sorted_by_distance", "training_pair_is_logged_pair", "training_noise_is_logged_sd_squared", "no_noise_column_without_noise",
               "nearest_first", "no_closer_row_left_out", "training_set_size_rule", "all_flagged_rows_used", "training_set_extended_by_one",
               "old_training_pairs_kept", "new_training_pair_is_the_observation", "posterior_updated", "acquisition_is_mean_minus_sqrt_beta_sd",
-              "returned_gp_keeps_its_training_set", "training_set_is_logged_data"}
+              "returned_gp_keeps_its_training_set", "training_set_is_logged_data",
+              "gp_recentred_on_incumbent", "gp_updated_once_per_observation", "gp_updated_with_the_new_observation"}
 PROPS["C15"] = dict(
-    jobs=lambda tier: nb_jobs(tier) + [j for j in rf_jobs(tier) if "HInitRetry" not in j["harness"]], labels=C15_LABELS, required=sorted(C15_LABELS),
+    jobs=lambda tier: nb_jobs(tier) + [j for j in rf_jobs(tier) if "HInitRetry" not in j["harness"]] +
+    [j for j in ps_jobs("quick", levels=(1, 2), D2=False) if j["params"]["k0"] == -1][:6] + ss_jobs("quick", levels=(0, 2)), labels=C15_LABELS, required=sorted(C15_LABELS),
     bounds=dict(quick="neighbour selection: <=3 logged rows, D<=2, scalar and concrete per-coordinate length scales, n_train_min/max in {(2,3),(1,2)}; posterior update: <=2 training rows; acquisition: D<=3, t in {1,2,7,50}",
                 thorough="4 logged rows (D=1), 3 rows (D=2), t in 1..50, the thorough refit schedules of C16"),
     outside=["what gpyreg does with the training set", "periodic variables"],
